@@ -165,6 +165,7 @@ def generate(prop, seed, tier):
         if lsq_ok and S.chance(0.5):
             op["method"] = S.pick(["lsq", "wlsq", "WLSQ"])
             op["weights"] = S.pick(["linear", "quadratic", "cubic", "array:linear", "list:quadratic"])
+            op["with_zero"] = S.chance(0.3)  # a calm-sea record: an observation of exactly 0
         elif fam == "ExpWeibull" and not lsq_ok and S.chance(0.3):
             # least squares with another fixed subset: the class refuses it (NotImplementedError by
             # design); either it keeps refusing, or - if it ever computes something - the fixed
@@ -257,6 +258,9 @@ def _data(scen, op):
             f = op["factor"] if p not in scen["fixed"] else 1.0 / (0.5 + 0.5 * op["factor"])
             truth[p] = min(max(truth[p] * f, lo), hi * 2) if truth[p] > 0 else truth[p] - (f if p not in scen["fixed"] else 0.3 * f)
     x = draw(fam, truth, op["n"], op["dseed"])
+    if op.get("with_zero"):
+        x = x.copy()
+        x[len(x) // 2] = 0.0
     if op["source"] == "rejected":
         how = op.get("reject_how", "negative")
         if how == "negative":
@@ -578,6 +582,33 @@ def execute_conditional(prop, scen):
                     if not np.allclose(got, want, rtol=1e-9, atol=1e-12) or not np.allclose(got_q, want_q, rtol=1e-9, atol=1e-12):
                         run.violate("I4-conditional-uses-fixed-value", f"{fam}/{'+'.join(sorted(scen['fixed']))}", {"given": float(g), "given_type": type(g).__name__, "params_at_given": pv, "got": got[:4], "want": want[:4], "got_q": got_q, "want_q": want_q, "step": si})
                         return run
+                    spread = want_q[2] - want_q[0]
+                    if isinstance(g, float) and not (spread > 1e-9 * max(1.0, abs(want_q[0]), abs(want_q[2]))):
+                        # dependence functions fitted to a handful of intervals can give a scale of 1e-33 at some
+                        # conditioning value: every draw then rounds to the location, nothing to compare
+                        run.count("conditional_sampling_not_judged_degenerate_parameters")
+                    elif isinstance(g, float):
+                        # sampling is an evaluation too: one draw for each of many (equal) conditioning values,
+                        # as a joint sample asks for it, follows the same law (DKW at 1e-12)
+                        n_s = 3000
+                        try:
+                            xs_ = np.asarray(cond.draw_sample(1, np.full(n_s, g), random_state=int(op["pseed"] % 100000)), dtype=float).reshape(-1)
+                        except Exception as e:  # noqa: BLE001
+                            run.violate("I4-conditional-sampling-raises", f"{fam}/{'+'.join(sorted(scen['fixed']))}", {"exc": repr(e)[:200], "given": float(g), "step": si})
+                            return run
+                        if len(xs_) == n_s and np.all(np.isfinite(xs_)):
+                            if fam == "VonMises":
+                                xs_ = pv["mu"] + (xs_ - pv["mu"] + math.pi) % (2 * math.pi) - math.pi
+                            u_ = np.sort(np.asarray(fz.cdf(xs_), dtype=float))
+                            i_ = np.arange(1, n_s + 1)
+                            d_ = float(max(np.max(i_ / n_s - u_), np.max(u_ - (i_ - 1) / n_s)))
+                            run.count("dkw_comparisons")
+                            if d_ > math.sqrt(math.log(2.0 / 1e-12) / (2.0 * n_s)):
+                                run.violate("I4-conditional-sample-uses-fixed-value", f"{fam}/{'+'.join(sorted(scen['fixed']))}", {"given": float(g), "sup_distance": d_, "params_at_given": pv, "step": si})
+                                return run
+                        else:
+                            run.violate("I4-conditional-sample-uses-fixed-value", f"{fam}/{'+'.join(sorted(scen['fixed']))}/shape-or-finite", {"given": float(g), "size": int(len(xs_)), "step": si})
+                            return run
                 run.event("eval", op, None)
                 continue
             # fit: intervals drawn from truth moving linearly with the conditioning value
